@@ -129,3 +129,66 @@ func Harness_C04_batched_archive_positions() {
 	}
 	vm.Assert("C04.batched_archive_locks_free", e.LocksFree())
 }
+
+// Harness_C04_update_positions: one Operations.Update call as `stfs operation update` issues it (caller-supplied file
+// information; with and without the size check; replacing the content by 0..2 bytes, or metadata only) on an entry
+// with 700 bytes. A replacement moves the entry's content position to the record the call wrote — also when the new
+// content is empty —, a metadata-only update keeps it and advances the last-known position.
+func Harness_C04_update_positions() {
+	e := VerifNewEnvWith(config.PipeConfig{RecordSize: 20}, config.CryptoConfig{}, config.CryptoConfig{}, false)
+	e.AddEntry("/", tar.TypeDir, 0, false, "")
+	e.P.VerifSetRoot("/")
+	e.AddEntry("/old", tar.TypeReg, 700, false, "")
+	e.AddEntry("/other", tar.TypeReg, 5, false, "")
+	var oldRec, oldBlk int64
+	for _, r := range e.P.VerifRows() {
+		if r.Name == "/old" {
+			oldRec, oldBlk = r.Record, r.Block
+		}
+	}
+	replace := vm.Bool("replace")
+	skipSizeCheck := vm.Bool("skipSizeCheck")
+	size := vm.Concretize(vm.Int("newSize", 0, 2))
+	data := []byte("xy")[:size]
+	done := false
+	segsBefore := len(e.Tape.Segs)
+	_, err := e.WriteOps.Update(func() (config.FileConfig, error) {
+		if done {
+			return config.FileConfig{}, io.EOF
+		}
+		done = true
+		return config.FileConfig{
+			GetFile: func() (io.ReadSeekCloser, error) { return &c04Src{data: data}, nil },
+			Info:    c04Info{name: "old", size: int64(size), mode: 0o600},
+			Path:    "/old",
+		}, nil
+	}, config.CompressionLevelFastestKey, replace, skipSizeCheck)
+	vm.Assert("C04.update_ok", err == nil)
+	if err != nil {
+		return
+	}
+	var written []*vm.Seg
+	for _, g := range e.Tape.Segs[segsBefore:] {
+		if g.Kind == vm.SegMember {
+			written = append(written, g)
+		}
+	}
+	vm.Assert("C04.update_wrote_one_record", len(written) == 1)
+	if len(written) != 1 {
+		return
+	}
+	rs := int64(e.RS)
+	for _, r := range e.P.VerifRows() {
+		if r.Name != "/old" {
+			continue
+		}
+		vm.Assert("C04.update_last_known_position_is_the_new_record", (r.Lastknownrecord*rs+r.Lastknownblock)*512 == written[0].Start)
+		if replace {
+			vm.Assert("C04.replaced_content_is_at_the_new_record", (r.Record*rs+r.Block)*512 == written[0].Start)
+			vm.Assert("C04.replaced_content_has_the_new_size", r.Size == int64(size))
+		} else {
+			vm.Assert("C04.metadata_update_keeps_the_content_position", r.Record == oldRec && r.Block == oldBlk)
+		}
+	}
+	vm.Assert("C04.update_locks_free", e.LocksFree())
+}
